@@ -1,8 +1,97 @@
+(* C16 -- XML reading is total, memory-safe, and faithful on its supported subset.
+   Model: coq/C16/Model.v ([parse] = readXML on the bytes of the file, every buffer read through
+   [peek]); the subset, its rendering and the demanded tree: coq/C16/Render.v. *)
 From Common Require Import Prelude.
-From C16 Require Import Model.
-Local Open Scope N_scope.
+From C16 Require Import Model Render Proofs ProofsRender ProofsMap.
 
+(* ---- totality: a document or std::runtime_error, nothing else --------------------------- *)
+Theorem parse_total : forall s : str,
+  (exists d j, parse s = Ok d j) \/ parse s = Throw.
+Proof. exact Proofs.parse_total. Qed.
+Print Assumptions parse_total.
+
+(* no hang: the fuel bound 2*|s|+4 on loop iterations + parseNode calls is never reached
+   (so the nesting depth is bounded by the file length) *)
+Theorem parse_no_hang : forall s : str, parse s <> OutOfFuel.
+Proof. exact Proofs.parse_never_out_of_fuel. Qed.
+Print Assumptions parse_no_hang.
+
+(* ---- memory safety: every index read lies in [0, length s]; index length s is the terminator.
+   OOB is what [peek] answers outside the buffer and what [trim_end] answers for end[-1] at 0 *)
+Theorem parse_in_bounds : forall s : str, parse s <> OOB.
+Proof. exact Proofs.parse_never_oob. Qed.
+Print Assumptions parse_in_bounds.
+
+Theorem parse_cursor_final : forall (s : str) d j, parse s = Ok d j -> j <= length s.
+Proof. exact Proofs.parse_cursor_final. Qed.
+Print Assumptions parse_cursor_final.
+
+(* the reader as found (parseString loops without the terminator test) did read out of bounds *)
 Theorem parse_string_oob_refuted :
   exists s, parse_old s = OOB.
-Proof. exists [60; 97; 32; 98; 61; 34; 120]. vm_compute. reflexivity. Qed.
+Proof. exists [60; 97; 32; 98; 61; 34; 120]%N. vm_compute. reflexivity. Qed.
 Print Assumptions parse_string_oob_refuted.
+
+(* ---- faithfulness on the documented subset, for EVERY layout the reader's grammar allows
+   (Render.v: header forms, white space, quote styles, escapes, self-closing / open-close,
+   comments, position of the text): reading the rendering of a laid-out document returns its
+   tree -- names, properties as std::map stores them, trimmed contents, children in order --
+   and consumes the whole file *)
+Theorem parse_render : forall d : ldoc,
+  wf_doc d = true -> parse (render_doc d) = Ok (doc_of d) (length (render_doc d)).
+Proof. exact ProofsRender.parse_render. Qed.
+Print Assumptions parse_render.
+
+(* the same for one node anywhere in a buffer: parseNode consumes exactly the node's rendering *)
+Theorem parse_render_node : forall (n : lnode) fuel (s : str) i r,
+  sfx s i (render_node n ++ r) -> wf_node n = true -> 2 * (length s - i) + 1 <= fuel ->
+  exists j, parse_node fuel s i = Ok (node_of n) j /\ sfx s j r.
+Proof. exact ProofsRender.parse_node_app. Qed.
+Print Assumptions parse_render_node.
+
+(* the property map of a returned node ([pm_of], used by [doc_of]) is std::map's: keys strictly
+   increasing, and looking a name up gives the value of the LAST property of that name *)
+Theorem props_sorted : forall ps : list lprop, pm_sorted (pm_of ps []).
+Proof. exact ProofsMap.pm_of_sorted. Qed.
+Print Assumptions props_sorted.
+
+Theorem props_last_wins : forall (k : str) (ps : list lprop),
+  pm_find k (pm_of ps []) = last_prop k ps.
+Proof. exact ProofsMap.pm_of_lookup. Qed.
+Print Assumptions props_last_wins.
+
+(* ---- non-vacuity ------------------------------------------------------------------------- *)
+(* both outcomes of parse_total occur; the file that overran the buffer now throws *)
+Example ex_total_ok : parse [60; 97; 47; 62]%N = Ok (Node [] [] [] [Node [97%N] [] [] []]) 4.
+Proof. vm_compute. reflexivity. Qed.
+Example ex_total_throw : parse [60; 97; 32; 98; 61; 34; 120]%N = Throw.
+Proof. vm_compute. reflexivity. Qed.
+(* the terminator index length s IS read (so the bound of parse_in_bounds is tight): the empty file *)
+Example ex_terminator_read : peek [] 0 = Some 0%N /\ peek [] 1 = None /\ parse [] = Ok (Node [] [] [] []) 0.
+Proof. vm_compute. auto. Qed.
+
+(* parse_render's premise holds for a document with a header with properties, a top-level
+   comment, both quote styles, an escape, a duplicate property, white space of every kind,
+   self-closing and open/close nodes, text followed by VT between children, an inner comment:
+     <?xml version="1.0" enc='u'?>\n<!-- top --> <r a="1" b = 'it\'s'\ta="2">\n <x/> text here\v<!-- in --><y k="v"></y></r>\n<s/> *)
+Example ex_render_premise : wf_doc ex_doc = true /\ length (render_doc ex_doc) = 120.
+Proof. vm_compute. auto. Qed.
+Example ex_render_result :
+  doc_of ex_doc =
+  Node [] [] []
+    [Node [114%N] [([97%N], [50%N]); ([98%N], [105%N; 116%N; 92%N; 39%N; 115%N])]
+       [116%N; 101%N; 120%N; 116%N; 32%N; 104%N; 101%N; 114%N; 101%N]
+       [Node [120%N] [] [] []; Node [121%N] [([107%N], [118%N])] [] []];
+     Node [115%N] [] [] []]
+  /\ parse (render_doc ex_doc) = Ok (doc_of ex_doc) 120.
+Proof. vm_compute. auto. Qed.
+(* the premise is needed: <a>x </a> (text ending with a blank) is read back trimmed *)
+Example ex_render_premise_needed :
+  wf_doc ex_doc_not_wf = false /\
+  parse (render_doc ex_doc_not_wf) <> Ok (doc_of ex_doc_not_wf) (length (render_doc ex_doc_not_wf)).
+Proof. split; [vm_compute; reflexivity | vm_compute; discriminate]. Qed.
+(* the duplicate property of ex_doc's node r: the last one wins *)
+Example ex_last_wins :
+  last_prop [97%N] [LProp [97%N] [] [] true [49%N] []; LProp [98%N] [] [] false [] [];
+                    LProp [97%N] [] [] true [50%N] []] = Some [50%N].
+Proof. vm_compute. reflexivity. Qed.
